@@ -1243,3 +1243,83 @@ func init() {
 	registry["C15"].Meta.Rules["C15.11"] = txt + " (shared with C14.13)"
 	registry["C15"].Rules = append(registry["C15"].Rules, func(c *Ctx, r *Result) { writeBackCompleteRule(c, r, "C15.11", "structures.WritableFractalHeap", 2) })
 }
+
+// ---- what a heap returns under an id does not depend on the bytes stored there (C15.12) ----
+//
+// The heap is a store of opaque bytes. On the read path of the writable heap (GetObject and the getObject* helpers) no branch
+// tests a byte of the stored content: neither an element of a block's Objects nor an element of the buffer the object was copied
+// into. A branch that does (all bytes zero means "deleted") makes some stored value unreadable.
+func heapContentIndependence(c *Ctx, r *Result, rule string) {
+	n := 0
+	for _, fn := range c.LibFuncs() {
+		name := c.Name(fn)
+		if !strings.HasPrefix(name, "structures.WritableFractalHeap.GetObject") && !strings.HasPrefix(name, "structures.WritableFractalHeap.getObject") {
+			continue
+		}
+		n++
+		isContent := func(v ssa.Value) bool {
+			root := stripSlices(v)
+			if k, _ := fieldLoadKey(root); strings.HasSuffix(k, ".Objects") {
+				return true
+			}
+			if mk, ok := root.(*ssa.MakeSlice); ok {
+				// a buffer filled from Objects by copy
+				for _, ref := range *mk.Referrers() {
+					_ = ref
+				}
+				for _, site := range callsIn(fn) {
+					if b, isB := site.Common().Value.(*ssa.Builtin); isB && b.Name() == "copy" && stripSlices(site.Common().Args[0]) == ssa.Value(mk) {
+						if k, _ := fieldLoadKey(stripSlices(site.Common().Args[1])); strings.HasSuffix(k, ".Objects") {
+							return true
+						}
+					}
+				}
+			}
+			return false
+		}
+		var readsContent func(v ssa.Value, d int) bool
+		readsContent = func(v ssa.Value, d int) bool {
+			if d > 8 {
+				return false
+			}
+			switch x := v.(type) {
+			case *ssa.UnOp:
+				if ia, ok := x.X.(*ssa.IndexAddr); ok && x.Op == token.MUL {
+					return isContent(ia.X)
+				}
+				return readsContent(x.X, d+1)
+			case *ssa.Index:
+				return isContent(x.X)
+			case *ssa.BinOp:
+				return readsContent(x.X, d+1) || readsContent(x.Y, d+1)
+			case *ssa.Convert:
+				return readsContent(x.X, d+1)
+			case *ssa.Call:
+				if b, isB := x.Call.Value.(*ssa.Builtin); isB && (b.Name() == "len" || b.Name() == "cap") {
+					return false
+				}
+				for _, a := range x.Call.Args {
+					if isContent(a) {
+						return true // bytes.Equal(data, zeros), allZero(data), ...
+					}
+				}
+			}
+			return false
+		}
+		bad := ""
+		for _, b := range fn.Blocks {
+			if ifi, ok := b.Instrs[len(b.Instrs)-1].(*ssa.If); ok && readsContent(ifi.Cond, 0) {
+				bad = c.InstrPos(ifi.Cond.(ssa.Instruction))
+			}
+		}
+		r.Check(bad == "", rule, name+"#no-branch-on-stored-bytes", c.Pos(fn.Pos()), "no branch of the read path tests a byte of the stored object"+map[bool]string{true: "", false: " (branch at " + bad + ": the value that satisfies the test can be stored but not read back)"}[bad == ""])
+	}
+	if n < 2 {
+		r.Shortfall(c, rule, fmt.Sprintf("%s: only %d read-path functions of the writable heap found", rule, n))
+	}
+}
+
+func init() {
+	registry["C15"].Meta.Rules["C15.12"] = "the heap returns what was stored whatever it is: on the read path of the writable heap (GetObject, getObject*) no branch condition reads a byte of a block's Objects or of the buffer copied from it - a content test (all zero means deleted) makes a legitimately stored value unreadable"
+	registry["C15"].Rules = append(registry["C15"].Rules, func(c *Ctx, r *Result) { heapContentIndependence(c, r, "C15.12") })
+}
